@@ -15,13 +15,20 @@ def cases(draw, tier):
     fields = ['a'] if draw(st.integers(0, 2)) else ['a', 'b']
     kind = draw(st.sampled_from(['cap', 'res']))
     cap = {f: draw(st.integers(1, 4)) for f in fields}
+    big_units = draw(st.integers(0, 5)) == 0      # large quantities (e.g. bytes): 10**10 + small
     hn = [0]
     sl = lambda: {'op': 'sleep', 'd': draw(st.sampled_from(HOLDS))}  # noqa
 
+    BIG = 10 ** 10
+    if big_units:
+        cap = {f: BIG + v for f, v in cap.items()}
+
     def amounts(limit):
-        am = {f: draw(st.integers(0, limit[f])) for f in fields if draw(st.integers(0, 3)) or len(fields) == 1}
+        am = {f: draw(st.integers(0, min(limit[f], 4))) for f in fields if draw(st.integers(0, 3)) or len(fields) == 1}
         if draw(st.integers(0, 5)) == 0:
             am = dict(limit)            # the full supply
+        elif big_units and draw(st.integers(0, 2)) == 0:
+            am = {f: max(limit[f] - draw(st.integers(0, 3)), 0) for f in fields}     # almost everything
         return am
 
     def block(limit, src, depth):
